@@ -116,6 +116,17 @@ prop("C13", "exploration", "MMIO bus trace per configuration access (bounds, exa
      "every subset of size 1..3 of the first n+4 configuration accesses (n = accesses of an undisturbed construction) plus random schedules of up to 12 updates. Non-trivial: always (an access was judged / a multi-field value was compared against the exposed versions). distinct: key of (transport, window) resp. (driver, transport, schedule).",
      [stage("checked"), stage("release")], [stage("checked"), stage("release")])
 
+DRV_NOTE = "The reference device follows the specification (it only reads what it is entitled to, serves by its notification policy, completes in an order the workload chooses); the harness is a well-behaved caller (documented preconditions respected). Register-level checkers of the real transports stay active and report under C10/C11."
+
+prop("C14", "exploration", "reference block device (sparse in-memory disk) parsing every request chain + differential comparison of disk and caller buffers",
+     "The real VirtIOBlk runs on the model transport and on the real MMIO (legacy/modern, SomeTransport) and PCI transports against a reference disk that validates and parses every chain ([16-byte header][data][1-byte status], type, sector, directions), executes it on a sparse sector map and logs it; "
+     "after every API call the workload compares what the device saw (type, sector, length, data hash) with the call's arguments, the returned bytes with the disk, the disk with the written bytes, and the result with the status the device chose for that request. Non-blocking requests are kept outstanding up to a queue-full and completed in random order.",
+     DRV_NOTE + " Blocking helpers are only used when nothing else is in flight (documented assumption of add_notify_wait_pop).",
+     "a case is one VirtIOBlk instance (transport in {model, model-legacy, MMIO modern/legacy, SomeTransport(MMIO), PCI}; offered features: all 16 subsets of {RO, FLUSH, INDIRECT_DESC, EVENT_IDX} by case number plus random unsupported bits; capacity in {0,1,2048,2^32,2^32+5,2^64-1}; device notification policy serve-on-notify / polling+suppression / eager) driven through 300 (thorough 600) steps of "
+     "read/write of 1..8 sectors at sectors incl. 0, 2^32, 2^63, flush, device_id, device statuses {OK, IOERR, UNSUPP, 3, 0xff}, non-blocking submissions (bursts up to queue-full), completions in random order with wrong-token probes, interrupt acknowledgement. "
+     "Non-trivial iff at least 2 non-blocking requests were outstanding at once and at least one request completed with its data checked; distinct by hash of (configuration, operation list).",
+     [stage("checked")], [stage("checked"), stage("asan", scale=150, optional=True)])
+
 NOT_YET = {}
 import re
 props = [json.loads(l) for l in open(os.path.join(ROOT, "properties.jsonl"))]
